@@ -23,12 +23,36 @@ import (
 	"codeberg.org/TauCeti/mangle-go/ast"
 )
 
+// isSingleAtomPremise reports whether the body is a single atom that can feed a
+// do-transform directly: the engine turns every stored fact matching the atom's
+// constants into one row, so the atom's arguments must be constants and pairwise
+// distinct variables. An atom with a repeated variable (p(X, X)) or a function
+// application is a join condition and needs the general evaluation path.
 func isSingleAtomPremise(premises []ast.Term) bool {
 	if len(premises) != 1 {
 		return false
 	}
-	_, ok := premises[0].(ast.Atom)
-	return ok
+	atom, ok := premises[0].(ast.Atom)
+	if !ok {
+		return false
+	}
+	seen := make(map[ast.Variable]bool)
+	for _, arg := range atom.Args {
+		switch t := arg.(type) {
+		case ast.Constant:
+		case ast.Variable:
+			if t.Symbol == "_" {
+				continue
+			}
+			if seen[t] {
+				return false
+			}
+			seen[t] = true
+		default:
+			return false
+		}
+	}
+	return true
 }
 
 // Rewrite transforms each clause of a given layer (stratum) of a program to another one where
